@@ -63,3 +63,23 @@ Definition rs_best_match {P} (routes : list (route P)) (host path user : bytes) 
 (* the (domain, location, user) triple of a route; triples are unique in a well-formed route set *)
 Definition rs_same_triple {P} (a b : route P) : bool :=
   bytes_eqb (rt_dom a) (rt_dom b) && bytes_eqb (rt_loc a) (rt_loc b) && bytes_eqb (rt_user a) (rt_user b).
+
+(* ---------- the specification as a state machine of its own: a plain set of routes ---------- *)
+Definition rs_triple_is {P} (d l u : bytes) (r : route P) : bool :=
+  bytes_eqb (rt_dom r) d && bytes_eqb (rt_loc r) l && bytes_eqb (rt_user r) u.
+
+(* registering: refused iff the (lower-cased host, location, user) triple is taken *)
+Definition rs_add {P} (routes : list (route P)) (d l u : bytes) (pay : P) : option (list (route P)) :=
+  if existsb (rs_triple_is (lower d) l u) routes then None
+  else Some (mkRoute (lower d) l u pay :: routes).
+
+(* removing: exactly that triple disappears *)
+Definition rs_del {P} (routes : list (route P)) (d l u : bytes) : list (route P) :=
+  filter (fun r => negb (rs_triple_is (lower d) l u r)) routes.
+
+Definition rs_step {P} (routes : list (route P)) (o : rt_op P) : list (route P) :=
+  match o with
+  | RAdd d l u p => match rs_add routes d l u p with Some r' => r' | None => routes end
+  | RDel d l u => rs_del routes d l u
+  end.
+Definition rs_run {P} (hist : list (rt_op P)) : list (route P) := fold_left rs_step hist [].
